@@ -392,11 +392,15 @@ class GFCrystalcalc(object):
         """
         if self.D is None: raise ValueError("Need to SetRates first")
         # evaluate Fourier transform component (now with better space group treatment!)
-        gIFT = 0
+        gIFT, gmag = 0, 0
         for gop, pair in zip(self.grouparray, self.indexpair[i][j]):
             gIFT += np.dot(self.wts, self.gsc_ijq[pair[0], pair[1]] * self.exp_dxq(np.dot(gop, dx)))
+            gmag += np.dot(self.wts, np.abs(self.gsc_ijq[pair[0], pair[1]]))
         gIFT /= self.NG
-        if not np.isclose(gIFT.imag, 0, atol=1e-8 * max(1., abs(gIFT.real))):
+        gmag /= self.NG
+        # the imaginary part vanishes only to the accuracy of the symmetrized k-point mesh (target 1e-7, see pmaxerror in
+        # SetRates), relative to the terms of the sum (magnitude gmag in total), which can be much larger than the result
+        if not np.isclose(gIFT.imag, 0, atol=1e-6 * max(1., abs(gIFT.real), gmag)):
             raise ArithmeticError("Got complex IFT? {}".format(gIFT))
         # evaluate Taylor expansion component:
         gTaylor = self.gT_ij[i][j](np.dot(self.uxtrans, dx), self.g_Taylor_fnlu)
